@@ -369,15 +369,19 @@ PLAN["C17"] = {
              "(missing, extra, differing: ~55 obligations); every identifier the hand-written Lean proofs refer to (SemaphoreMTB.<id> and 'open SemaphoreMTB renaming <id>' in Main.lean and FormalVerification/*.lean, ~30) must be defined "
              "by the fresh extraction; extraction at depth 32/33/40 must fail. (Sweep, rapid) drawn (depth 1..31, batch 1..16): two extractions in one process are identical, end with 'end SemaphoreMTB' and contain the two circuit "
              "definitions with the dimension-suffixed names; a quarter of the cases run 'extract-circuit' through the built binary in a fresh process with GOMAXPROCS in {1,2,3,16} (a third of those at (30,4)) and compare with the in-process text. "
-             "Every comparison is non-trivial; definitions/identifiers are distinct by name, sweep points by SHA-1."),
+             "(ModelSemantics, rapid) translation validation by generated inputs: an interpreter for the extracted Lean DSL (honest-prover semantics of ProvenZK's gates) runs the COMMITTED (30,4) model and freshly extracted "
+             "models at (3,2),(2,3),(1,1),(5,1) on generated witnesses - valid batches, every invalid class of C01/C02, wrong public inputs, and alternative 256-bit decompositions v+k*r answered alike on both sides - and its verdict must equal "
+             "that of the compiled R1CS of the same dimensions (BuildR1CSX). Every comparison is non-trivial; definitions/identifiers are distinct by name, sweep points and witnesses by SHA-1."),
     "assumptions": A_COMMON + ["the Lean proofs themselves are NOT rebuilt: the toolchain (lean4 nightly-2023-07-12), mathlib commit and ProvenZK pinned by the repository cannot be installed offline; the property as stated is about the model text and identifier closure"],
-    "technique": "differential testing of extraction output against the committed artefact (per definition), identifier-closure check, metamorphic determinism sweep in and across processes",
+    "technique": "differential testing of extraction output against the committed artefact (per definition), identifier-closure check, metamorphic determinism sweep, and differential evaluation of the Lean model against the compiled circuit on generated witnesses",
     "level_text": "Exhaustive over the definitions of the extracted model at the proof dimensions and over the identifiers the proofs use; sampled sweep of other dimensions and process configurations for determinism.",
-    "level_note": "decided at the level of the extracted model text; does not re-check that the Lean theorems still hold",
+    "level_note": "decided on the extracted model text plus sampled semantic agreement between model and compiled circuit; does not re-check that the Lean theorems still hold; the interpreter resolves existentials as an honest prover would",
     "quick": [{"test": "TestC17_Committed", "rapid": False, "timeout": 600},
-              {"test": "TestC17_Sweep", "checks": 16, "shards": 2, "cli": True, "timeout": 900}],
+              {"test": "TestC17_Sweep", "checks": 16, "shards": 2, "cli": True, "timeout": 900},
+              {"test": "TestC17_ModelSemantics", "checks": 25, "shards": 3, "timeout": 900}],
     "thorough": [{"test": "TestC17_Committed", "rapid": False, "timeout": 600},
-                 {"test": "TestC17_Sweep", "checks": 60, "shards": 8, "cli": True, "timeout": 3000}],
+                 {"test": "TestC17_Sweep", "checks": 60, "shards": 8, "cli": True, "timeout": 3000},
+                 {"test": "TestC17_ModelSemantics", "checks": 150, "shards": 12, "timeout": 3000}],
 }
 
 PLAN["C12"] = {
